@@ -24,12 +24,16 @@ struct CfgOut {
 fn check_cfg(ctx: &Ctx, cfg: &Cfg, dp: usize) -> CfgOut {
     let mut out = JobOut::default();
     let mut alpha = generic_alphabet(cfg.kind, false);
+    if !ctx.tier_thorough {
+        alpha.truncate(3); // quick tier: 3 ordinary values
+    }
     alpha.push(continuation_alphabet(cfg.kind)[3]); // a NaN-carrying input
     // a value 10^7 times larger: once it has left the window the running sums carry its rounding
     // residue, which a "recompute derived state on load" deserializer would silently drop
     alpha.push(if cfg.kind.has_scalar() { Op::S(33_000_000.7) } else { Op::B(Bar { o: 3.3e7, h: 4.4e7 + 0.3, l: 2.2e7 + 0.1, c: 33_000_000.7, v: 1.0e3 + 0.7 }) });
     let alpha = with_reset(alpha);
-    let cont: Vec<Op> = continuation_alphabet(cfg.kind)[..3].to_vec();
+    // continuations may contain reset(): a restored copy must also RESET like the original
+    let cont: Vec<Op> = with_reset(continuation_alphabet(cfg.kind)[..2].to_vec());
     let n = cfg.max_period();
     let cont_len = n + 2;
     let mut seen: HashSet<u128> = HashSet::new();
@@ -294,6 +298,20 @@ fn data_items(out: &mut JobOut) {
             }
         }
     }
+    // volumes that are not whole numbers / beyond 2^64 (prices fixed)
+    for v in [0.375, 1e-300, 2.5, 1.0e20, 1.8446744073709552e19, f64::MAX] {
+        if let Ok(it) = DataItem::builder().open(1.5).high(2.25).low(1.125).close(2.0).volume(v).build() {
+            built += 1;
+            out.stats.evaluations += 1;
+            let bytes = bincode::serialize(&it).unwrap_or_default();
+            let back: Result<DataItem, _> = bincode::deserialize(&bytes);
+            let ok = matches!(&back, Ok(b) if *b == it && b.volume().to_bits() == v.to_bits());
+            if !ok {
+                out.fail(Violation::new(PROP, &dummy, &[Op::B(Bar { o: 1.5, h: 2.25, l: 1.125, c: 2.0, v })], "dataitem-roundtrip").obs(format!("{:?}", back.map_err(|e| e.to_string()))).exp(format!("{:?}", it)).det("DataItem does not round-trip through bincode to an equal value".into()));
+                return;
+            }
+        }
+    }
     out.stats.add("dataitems_round_tripped", built);
     out.stats.states += built;
     out.stats.traces += built;
@@ -343,7 +361,7 @@ pub fn run(ctx: &Ctx) -> CheckResult {
     res.extra.insert("checkpoints".into(), json!(rows));
     res.extra.insert("distinct_checkpoint_states_total".into(), json!(total_cp));
     res.rule = "case = (configuration, checkpoint history, continuation): the real indicator after the history is serialized with bincode and deserialized once and twice; every continuation of n+2 inputs over 3 values is fed to the original (rebuilt by replay) and both restored copies, outputs compared at 1e-12 relative; checkpoints de-duplicated by concrete state; non-trivial = checkpoint history at least as long as the window".into();
-    res.bounds = format!("all 22 indicators, periods 1..4 (tuples over {{1,2,3}}), every history in seq(4 values + NaN + a 3.3e7 spike + reset, {dp}) as checkpoint, all 3^(n+2) continuations; long-history family: every prefix length 0..=3n+3 of 2 default streams (with resets and a NaN) as checkpoint for periods up to 64/257 (defaults 9,10,14,20,22,12/26/9 included), 3 continuations of n+2 inputs; all 10^5 lattice DataItems that build() accepts");
+    res.bounds = format!("all 22 indicators, periods 1..4 (tuples over {{1,2,3}}), every history in seq(3 (thorough: 4) values + NaN + a 3.3e7 spike + reset, {dp}) as checkpoint, all 3^(n+2) continuations over 2 values + reset; long-history family: every prefix length 0..=3n+3 of 2 default streams (with resets and a NaN) as checkpoint for periods up to 64/257 (defaults 9,10,14,20,22,12/26/9 included), 3 continuations of n+2 inputs; all 10^5 lattice DataItems that build() accepts");
     res.assumptions = vec!["bincode 1.3 is the serialization format exercised (the property names it)".into()];
     res
 }
